@@ -47,7 +47,7 @@ package passiveauth
 
 // trust anchors are restricted to the document's country
 //@ func countryCscaCerts
-//@   props C01 C12
+//@   props C01 C12 C20
 //@   requires doc != nil && trustedCerts != nil && (doc.Mf.Lds1.Sod != nil ==> doc.Mf.Lds1.Sod.SD != nil)
 //@   ensures "anchors-of-the-document-country-from-the-supplied-store": err == nil ==> countryCerts != nil && fresh(countryCerts) && doc.Mf.Lds1.Sod != nil
 //@        && poolCountry(ref(countryCerts)) === sodCountry(ref(doc.Mf.Lds1.Sod.SD)) && poolSource(ref(countryCerts)) == ref(trustedCerts)
@@ -59,7 +59,7 @@ package passiveauth
 // group present matches its signed hash-list entry; the security object verifies against exactly those anchors; and the
 // card security object, when present, verifies against them as well.
 //@ func PassiveAuth
-//@   props C01 C12
+//@   props C01 C12 C20
 //@   requires doc != nil && trustedCerts != nil
 //@   requires doc.Mf.Lds1.Sod != nil ==> doc.Mf.Lds1.Sod.SD != nil && doc.Mf.Lds1.Sod.LdsSecurityObject != nil
 //@   requires doc.Mf.CardSecurity != nil ==> doc.Mf.CardSecurity.SD != nil
